@@ -135,6 +135,21 @@ let handle_mt = function
       Printf.sprintf "%s %s docs:%d %s" id fin (List.length (fst r)) (hex_of_bytes (mm_output r))
   | _ -> failwith "bad MT line"
 
+(* JT <id> <S|R> <hex>: JSON -> MessagePack through the slice or the reader loop *)
+let handle_jt = function
+  | [ id; mode; data ] ->
+      let inp = bytes_of_hex data in
+      let r = if mode = "S" then json_slice inp else json_reader inp in
+      let fin =
+        match snd r with
+        | JDone -> "ok"
+        | JFail JOutOfFuel -> "outoffuel"
+        | JFail JTrailing -> "err:trailing"
+        | JFail _ -> "err"
+      in
+      Printf.sprintf "%s %s docs:%d %s" id fin (List.length (fst r)) (hex_of_bytes (jm_output r))
+  | _ -> failwith "bad JT line"
+
 let handle_md = function
   | [ id; data ] -> id ^ " " ^ if msgpack_matches utf8_valid (bytes_of_hex data) then "match" else "nomatch"
   | _ -> failwith "bad MD line"
@@ -495,6 +510,7 @@ let () =
           | "UR" :: rest -> handle_ur rest
           | "MT" :: rest -> handle_mt rest
           | "MD" :: rest -> handle_md rest
+          | "JT" :: rest -> handle_jt rest
           | k :: _ -> failwith ("unknown case kind " ^ k)
           | [] -> ""
         in
